@@ -324,9 +324,41 @@ impl Check for C13 {
                     let v = gen::gen_mval(&mut ctx.rng, ty, &GenOpts::wire());
                     let body = model::encode(&v);
                     let t = ty.tag().unwrap();
+                    // counter-signature chains around the nesting limit through both layers
+                    for k in 0..60u64 {
+                        let chain = super::c07::csig_chain(ctx, k);
+                        for ty in [Ty::Header, Ty::ProtMap] {
+                            api_agreement(ctx, ty, &chain);
+                        }
+                        for root in [1u8, 2, 3, 5, 10] {
+                            let (ty, carried) = crate::hostile::carry_header(root, &chain);
+                            api_agreement(ctx, ty, &carried);
+                        }
+                    }
+                    let body_bytes = rcbor::det(&body);
                     for tag in [t, t + 1, t + (1 << 8), t + (1 << 16), t + (1 << 32), t + (3 << 32), u64::MAX - (u32::MAX as u64) + t, 55799, 0] {
+                      for width in 0..5u8 {
+                        // every legal head width of the tag number
+                        let mut x: Vec<u8> = Vec::new();
+                        match width {
+                            0 if tag < 24 => x.push(0xc0 | tag as u8),
+                            1 if tag < 256 => x.extend_from_slice(&[0xd8, tag as u8]),
+                            2 if tag < 65536 => {
+                                x.push(0xd9);
+                                x.extend_from_slice(&(tag as u16).to_be_bytes());
+                            }
+                            3 if tag <= u32::MAX as u64 => {
+                                x.push(0xda);
+                                x.extend_from_slice(&(tag as u32).to_be_bytes());
+                            }
+                            4 => {
+                                x.push(0xdb);
+                                x.extend_from_slice(&tag.to_be_bytes());
+                            }
+                            _ => continue,
+                        }
+                        x.extend_from_slice(&body_bytes);
                         ctx.eval();
-                        let x = rcbor::det(&Item::Tag(tag, Box::new(body.clone())));
                         ctx.nontrivial_bytes(&x);
                         let a = capi::from_tagged_slice(ty, &x);
                         let b = match capi::ciborium_parse_exact(&x) {
@@ -336,6 +368,7 @@ impl Check for C13 {
                         if a.is_ok() != b.is_ok() {
                             ctx.violation(&format!("C13/api-layers-disagree/tagged-decode/{}", ty.name()), format!("from_tagged_slice {} but parse + tag check + from_cbor_value {} for tag {}", if a.is_ok() { "accepts" } else { "rejects" }, if b.is_ok() { "accepts" } else { "rejects" }, tag), J::obj(vec![("hex", J::Str(hex(&x)))]));
                         }
+                      }
                     }
                 }
             }
